@@ -5,8 +5,8 @@ import ast
 from typing import Dict, List, Optional, Set, Tuple
 
 from ..calls import Reach, Resolver
-from ..core import AnalysisError, Report
-from ..effects import NAMING_ATTRS, ExcFlow, ExcHierarchy, exc_name, handlers_around, raise_sites, writes_in
+from ..core import AnalysisError, Report, rel
+from ..effects import MUTATORS, NAMING_ATTRS, ExcFlow, ExcHierarchy, exc_name, handlers_around, raise_sites, writes_in
 from ..grammar import extract_shipped, normalise
 from ..model import Program
 
@@ -51,6 +51,9 @@ def run(rep: Report) -> None:
              "subclasses of LarkError (armed in the parser zone); int() of an unbounded digit token must be converted to ParseError", floor=6)
     rep.rule("R17.2i", "inventory: builtin raises in algebra code reachable from the callbacks", armed=False)
     rep.rule("R17.3", "no path from the parse entry points writes a name or symbol registry (or renames an existing object)", floor=1)
+    rep.rule("R17.7", "the callbacks of the shared, module-level transformer keep no state on it (parsing the same text twice gives the same result, "
+             "whatever was parsed - or rejected - in between)", floor=6)
+    rep.rule("R17.8", "nothing on the parse path issues a warning (a warning escapes as an exception of its category wherever warnings are escalated)", floor=1)
     rep.rule("R17.6", "a magnitude callback that is a bare builtin is fed by Lark's standard number terminal (the set of texts the builtin accepts)", floor=2)
     rep.rule("R17.4", "the magnitude callbacks produce the builtin int / float of the token text", floor=2)
     rep.rule("R17.5", "determinism: no memoised function on the parse path is keyed by a number (5 == 5.0 share a cache slot) or "
@@ -246,6 +249,65 @@ def run(rep: Report) -> None:
         q = bad.split(":")[0]
         if q in reach.reached and q != "Unit.alias":
             rep.fail("R17.3", f"{q}:reachable", f"{q} is reachable from the parse entry points", prog.functions[q].where())
+
+    # R17.8: a warning is an exception as soon as the embedding program escalates warnings (python -W error,
+    # pytest's filterwarnings = error): issued on the parse path it escapes parse() as its category
+    n8 = 0
+    for f in sorted(reach.reached):
+        fi8 = prog.functions[f]
+        mi8 = prog.modules[fi8.module]
+        for node in Resolver._own_nodes(fi8.node):
+            if not isinstance(node, ast.Call):
+                continue
+            fn_txt = ast.unparse(node.func)
+            is_warn = fn_txt in ("warnings.warn", "warnings.warn_explicit") or \
+                (isinstance(node.func, ast.Name) and mi8.imports.get(node.func.id, ("", None))[0].endswith("warnings") and node.func.id.startswith("warn"))
+            if not is_warn or not reach.feasible_node(f, node):
+                continue
+            cat = ast.unparse(node.args[1]) if len(node.args) > 1 else next((ast.unparse(k.value) for k in node.keywords if k.arg == "category"), "UserWarning")
+            n8 += 1
+            rep.fail("R17.8", f"{f}:warn {cat}", f"{f} (reachable from parsing: {' -> '.join(reach.path_to(f)[-4:])}) issues {cat}: when warnings are "
+                     f"escalated to errors (-W error, pytest filterwarnings=error) it leaves Unit.parse / Quantity.parse as {cat}, which is neither "
+                     "ParseError nor KeyError", fi8.where(node))
+    if n8 == 0:
+        rep.ok("R17.8", "parse-path", note=f"{len(reach.reached)} functions, no warnings.warn on a feasible arm")
+
+    # R17.7: the transformer handed to the parser is one module-level object shared by every parse; whatever a callback
+    # stores on it survives the parse - also one that is abandoned half-way by an error - and is seen by the next
+    pmod = prog.module("parsing")
+    shared = [n for st in pmod.tree.body if not isinstance(st, (ast.FunctionDef, ast.ClassDef, ast.AsyncFunctionDef))
+              for n in ast.walk(st) if isinstance(n, ast.Call) and ast.unparse(n.func).split(".")[-1] == ci.name]
+    n7 = 0
+    for attr, q in sorted(ci.methods.items()):
+        if attr in ("__init__", "__new__") or not shared:
+            continue
+        fi7 = prog.func(q)
+        selfname = fi7.params()[0] if fi7.params() else "self"
+
+        def on_self(e: ast.AST) -> bool:
+            while isinstance(e, ast.Subscript):
+                e = e.value
+            return isinstance(e, ast.Attribute) and isinstance(e.value, ast.Name) and e.value.id == selfname
+        hits: List[ast.AST] = []
+        for n in Resolver._own_nodes(fi7.node):
+            if isinstance(n, (ast.Assign, ast.AugAssign, ast.AnnAssign)):
+                tg = n.targets if isinstance(n, ast.Assign) else [n.target]
+                for t in tg:
+                    hits += [n for x in (t.elts if isinstance(t, (ast.Tuple, ast.List)) else [t]) if on_self(x)]
+            elif isinstance(n, ast.Delete):
+                hits += [n for t in n.targets if on_self(t)]
+            elif isinstance(n, ast.Call) and isinstance(n.func, ast.Attribute) and n.func.attr in MUTATORS and on_self(n.func.value):
+                hits.append(n)
+            elif isinstance(n, ast.Call) and isinstance(n.func, ast.Name) and n.func.id in ("setattr", "delattr") and n.args \
+                    and isinstance(n.args[0], ast.Name) and n.args[0].id == selfname:
+                hits.append(n)
+        n7 += 1
+        rep.check("R17.7", f"{q}:stateless", not hits,
+                  f"{q} stores on the transformer ({ast.unparse(hits[0])[:60] if hits else ''}): the transformer is the single module-level "
+                  f"object created at {rel(pmod.path)}:{shared[0].lineno if shared else 0}, so the state outlives the parse - a rejected text leaves it "
+                  "behind and the next, unrelated parse gives a different result for the same text", fi7.where(hits[0]) if hits else fi7.where())
+    if not shared:
+        rep.ok("R17.7", "transformer:per-parse", note="no module-level transformer instance")
 
     # R17.4
     for name, typ in (("int", "int"), ("float", "float")):
